@@ -62,6 +62,7 @@ PROPERTIES = {
             "quick": [B("small-a", "plain", "small-a", 5000, 30), B("small-b", "plain", "small-b", 1500, 10), B("envscan-sample", "plain", "small-a", 224, 25, mode="envscan"),
                       B("threads-small-a", "plain", "small-a", 4000, 15, mode="threads"), B("shipped", "plain", "shipped", 40, 40, workers=8, gate=4)],
             "thorough": [B("small-a", "plain", "small-a", 100000, 300), B("small-b", "plain", "small-b", 40000, 120), B("envscan-all-65536", "plain", "small-a", 3584, 600, mode="envscan"),
+                         B("threads-small-a", "plain", "small-a", 80000, 180, mode="threads"), B("threads-shipped", "plain", "shipped", 200, 180, workers=8, mode="threads", gate=4),
                          B("shipped", "plain", "shipped", 1000, 360, workers=8, gate=8), B("contract-audit", "assert", "small-a", 3000, 40)],
         },
     },
